@@ -61,7 +61,12 @@ impl Deref for MaybeBorrowedPool {
 }
 
 fn create_pool() -> rayon::ThreadPool {
-    let num_threads = std::cmp::min(config_num_threads(), num_cpus::get_physical());
+    // A configured `0` means "use the default" (the physical core count); handing the `0`
+    // on to rayon would make it fall back to `RAYON_NUM_THREADS` / the logical CPU count.
+    let num_threads = match config_num_threads() {
+        0 => num_cpus::get_physical(),
+        n => std::cmp::min(n, num_cpus::get_physical()),
+    };
 
     let no_pinning = config_bool("CFAVML_NO_PINNING");
     rayon::ThreadPoolBuilder::new()
